@@ -416,6 +416,9 @@ pub open spec fn trim_ext_result(path: &PathBuf, t: &PathBuf) -> bool {
     &&& (spec_ext(path.comps()) is Some && path.utf8_ok()) ==> t.pstr() == spec_trim_suffix(path.pstr(), seq!['.'] + spec_ext(path.comps())->Some_0)
 }
 //@ item name file=src/sys/fs/path.rs fn=name props=C15,C12
+// R7 (optional): `s[..i].to_string()` is the slice-to shim; R1: `base(path)?` takes a reference
+//@ rw R7 * re⟦(\w+)\[\.\.(\w+)\]\.to_string\(\)⟧ => ⟦\1.slice_to(\2)⟧
+//@ rw R1 * re⟦= base\(path\)\?;⟧ => ⟦= base(path)?;⟧
 //@ rw R1 * ⟦base(trim_ext(path)?)⟧ => ⟦base(&trim_ext(path)?)⟧
 pub fn name(path: &PathBuf) -> (r: RvResult<Str>)
     ensures
